@@ -116,6 +116,13 @@ class _Tr:
                   and e.comparators[0].id in self.tables, f"membership test {ast.unparse(e)}")
             lean, kind = self.tables[e.comparators[0].id]
             return f"(PyVal.{'inStrs' if kind == 'str-list' else 'inKeys'} {lean} {self.cur()})"
+        if isinstance(e, ast.Compare) and len(e.ops) == 2 and all(isinstance(o, (ast.LtE, ast.Lt)) for o in e.ops) \
+                and not all(isinstance(o, ast.LtE) for o in e.ops):
+            # a strict bound somewhere: translated as written (the theorem then decides whether it is the same range)
+            _need(isinstance(e.comparators[0], ast.Name) and e.comparators[0].id == self.p, f"range test {ast.unparse(e)}")
+            _need("int" in guards, f"range test {ast.unparse(e)} not behind isinstance({self.p}, int)")
+            sa, sb = ("true" if isinstance(o, ast.Lt) else "false" for o in e.ops)
+            return f"(PyVal.betweenX {_lean_int(_int_const(e.left))} {sa} {_lean_int(_int_const(e.comparators[1]))} {sb} {self.cur()})"
         if isinstance(e, ast.Compare) and len(e.ops) == 2 and all(isinstance(o, ast.LtE) for o in e.ops):
             _need(isinstance(e.comparators[0], ast.Name) and e.comparators[0].id == self.p, f"range test {ast.unparse(e)}")
             _need("int" in guards, f"range test {ast.unparse(e)} not behind isinstance({self.p}, int) (would raise TypeError for a str)")
